@@ -9,15 +9,19 @@ from .values import NONE, VBuiltin, VByteArray, VClass, VDict, VExc, VFunc, VLis
 from .symex import Env, PyRaise
 
 
-def havoc_lvalue(interp, expr_src, env, tag="havoc"):
+def havoc_lvalue(interp, expr_src, env, tag="havoc", self_model=None):
     """forget everything about an lvalue given as source text ('self._pos', 'b')"""
     from .fresh import fresh_like
+    from .values import VNone
     node = ast.parse(expr_src, mode="eval").body if isinstance(expr_src, str) else expr_src
     spec = interp.sub(True)
     if isinstance(node, ast.Name):
         cur = env.lookup(node.id)
         if _havoc_inplace(interp, cur, tag):
             return
+        if isinstance(cur, VNone):
+            # "a fresh value shaped like None" would be None again: the havoc would silently assume the value stays None
+            raise Unsupported(f"havoc of {expr_src}: current value is None and no shape is declared")
         env.assign(node.id, fresh_like(interp, cur, f"{tag}_{node.id}"))
         return
     if isinstance(node, ast.Attribute):
@@ -29,6 +33,20 @@ def havoc_lvalue(interp, expr_src, env, tag="havoc"):
         cur = obj.fields.get(node.attr)
         if cur is None:
             raise Unsupported(f"havoc: {expr_src} has no current value")
+        if isinstance(cur, VNone):
+            # None carries no shape: take the declared one (the object's model, else the callee's model of `self`)
+            from .values import parse_shape
+            decl = None
+            if obj.model is not None and node.attr in obj.model.fields:
+                decl = obj.model.fields[node.attr]
+            elif self_model is not None and isinstance(node.value, ast.Name) and node.value.id == "self" \
+                    and node.attr in self_model.fields:
+                decl = self_model.fields[node.attr]
+            if decl is None:
+                raise Unsupported(f"havoc of {expr_src}: current value is None and no shape is declared")
+            obj.fields[node.attr] = interp.fresh(parse_shape(decl, interp.reg.models) if isinstance(decl, str) else decl,
+                                                 f"{tag}_{node.attr}")
+            return
         concrete_container = (isinstance(cur, (VList, VDict)) and cur.concrete) or (isinstance(cur, VSet) and cur.arr is None)
         if concrete_container and obj.model is not None and node.attr in obj.model.fields:
             # a literal container ([] / set() / {}) about to be changed in a loop: from here on it is a symbolic value
@@ -170,7 +188,7 @@ def apply_contract(interp, c, fv, args, kwargs, node):
     d = ctx.choose([T()] * len(outcomes), what=f"call:{c.key}")
     if c.modifies_declared or c.trusted or c.key.startswith("model:"):
         for lv in (c.modifies if d == 0 else c.raise_modifies):
-            havoc_lvalue(interp, lv, env, tag="m")
+            havoc_lvalue(interp, lv, env, tag="m", self_model=c.self_model)
     else:
         # a verified contract without a declared frame: the callee may have changed anything it can reach
         import os as _os
